@@ -213,6 +213,24 @@ func checkFunc(P *Program, fn *ssa.Function, c *FuncContract, sweep bool) (rep *
 			Detail: "contract asserts at a call site that does not exist: " + key, Goal: p.False(), PC: p.True(), NFacts: 0, Func: ex.fnName(fn), Props: c.Props}
 		ex.obls = append(ex.obls, o)
 	}
+	// `threads tx` must name a parameter or a local variable of the function: otherwise it would silently state nothing
+	if c.Threads != nil {
+		named := false
+		for i, prm := range fn.Params {
+			if prm.Name() == c.ThreadsParam || (len(c.Params) == len(fn.Params) && c.Params[i] == c.ThreadsParam) {
+				named = true
+			}
+		}
+		if !named {
+			dbg := debugNames(fn)
+			named = len(dbg[c.ThreadsParam]) > 0 || len(dbg[c.ThreadsParam+"&"]) > 0
+		}
+		if !named {
+			o := &Obligation{Name: fmt.Sprintf("%s#contract.target[threads %s]", ex.fnName(fn), c.ThreadsParam), Kind: "contract.target",
+				Detail: "contract names a store handle that is neither a parameter nor a local variable: " + c.ThreadsParam, Goal: p.False(), PC: p.True(), NFacts: 0, Func: ex.fnName(fn), Props: c.Props}
+			ex.obls = append(ex.obls, o)
+		}
+	}
 	ex.addFieldInputs(fn)
 	if len(fr.rets) == 0 {
 		return
